@@ -28,7 +28,7 @@ ASSUMPTIONS = ['checksum values are opaque (the reader does not verify them)',
                'a file consisting of the label only is excluded (documented as unsupported)']
 SHARDS = {'quick': 4, 'thorough': 16}
 REQUIRED_CLASSES = {'record-spans>=2-visible-records': 1, 'segment-with-padding': 1, 'segment-with-checksum': 1,
-                    'segment-with-trailing-length': 1, 'zero-length-payload': 1, 'encrypted-record': 1, 'encrypted-segment-with-padding': 1, 'encrypted-segment-with-encryption-packet': 1, 'middle-segment-with-every-attribute-bit-set': 1, 'middle-segment-without-payload': 1, 'visible-record-of-20-bytes': 1,
+                    'segment-with-trailing-length': 1, 'zero-length-payload': 1, 'encrypted-record': 1, 'encrypted-segment-with-padding': 1, 'encrypted-segment-with-encryption-packet': 1, 'middle-segment-with-every-attribute-bit-set': 1, 'middle-segment-without-payload': 1, 'record-of>=900-segments': 1, 'visible-record-of-20-bytes': 1,
                     'visible-record-of-16384-bytes': 1,
                     'sul-number-with-0-digit': 1, 'several-records-in-one-visible-record': 1,
                     'reread:second-pass': 1, 'reread:pass-after-other-operation': 1}
@@ -274,8 +274,44 @@ class RereadMachine(HistoryMachine):
         self.op({'op': 'pass_while_another_is_abandoned', 'peek': peek, 'close_after': close_after})
 
 
+@st.composite
+def many_segment_cases(draw):
+    """One logical record cut into 900..1300 segments (the layout is made when the case is checked), between two small ones."""
+    return {'sul': draw(G.suls()), 'n': draw(st.integers(900, 1300)), 'body': draw(st.sampled_from([1, 1, 2, 3])),
+            'cap': draw(st.sampled_from([8192, 16384, 400, 20 + 16 * 7])), 'trailers': draw(st.tuples(st.booleans(), st.booleans())),
+            'eflr': draw(st.booleans()), 'type': draw(st.integers(0, 11))}
+
+
+def check_many_segments(case, cc):
+    n, b = case['n'], case['body']
+    small = {'eflr': True, 'type': 0, 'payload': b'first', 'encrypted': False}
+    big = {'eflr': case['eflr'], 'type': case['type'], 'payload': bytes((i * 7 + (i >> 8)) & 0xFF for i in range(n * b)), 'encrypted': False}
+    last = {'eflr': False, 'type': 0, 'payload': b'last record', 'encrypted': False}
+    cs, tr = case['trailers']
+
+    def seg(nb):
+        base = G.SEG_HEAD + nb + 2 * cs + 2 * tr
+        pad = max(0, G.SEG_MIN - base)
+        pad += (base + pad) % 2
+        return {'n': nb, 'pad': pad, 'checksum': cs, 'trailing': tr}
+    sul = dict(case['sul'], max_len=max(case['sul']['max_len'], 16384))
+    full = {'sul': sul, 'records': [small, big, last], 'layouts': [[seg(5)], [seg(b) for _ in range(n)], [seg(11)]], 'vr_caps': [case['cap']]}
+    cc.cls('record-of>=900-segments')
+    # Hypothesis raises the interpreter's recursion limit while a test runs; a caller of the library has the default 1000 and
+    # is some 50 frames deep: the stack available to the reader is set to that for this case
+    import inspect
+    import sys
+    old = sys.getrecursionlimit()
+    sys.setrecursionlimit(len(inspect.stack(0)) + 950)
+    try:
+        check(full, cc)
+    finally:
+        sys.setrecursionlimit(old)
+
+
 def parts(tier):
-    return [HypPart('sequential-read', G.physical_files(), check, 1600, 40000),
+    return [HypPart('many-segments', many_segment_cases(), check_many_segments, 8, 120),
+            HypPart('sequential-read', G.physical_files(), check, 1600, 40000),
             MachinePart('reread-history', RereadMachine, engine.replay_machine_case(reread_start, reread_step), 500, 10000, steps=8)]
 
 
